@@ -47,3 +47,10 @@ Theorem C02acc_toml_get_other : forall v,
 Proof. exact (fun v => conj (tv_index_usize_other v) (tv_index_str_other v)). Qed.
 Print Assumptions C02acc_toml_get_other.
 
+
+(* toml::Map's iterators are double-ended: reading alternately from both ends (next, next_back, next, ...) hands out every
+   entry exactly once - the sequence read is a permutation of the forward sequence (`alternate` is what accv prints) *)
+Require Import Permutation.
+Theorem C02acc_toml_alternate_reads_all : forall l : list bytes, Permutation (alternate (S (List.length l)) l) l.
+Proof. exact alternate_reads_all. Qed.
+Print Assumptions C02acc_toml_alternate_reads_all.
